@@ -113,11 +113,15 @@ func Criteria() Spec {
 	}
 	evs = append(evs,
 		fix(Put(B, K0, BC(den[0], "0.5"), BC(den[5], "1.5"), BC(den[0], Eps))), // several credits, same batch twice
-		fix(Put(C, K0, BC(den[1], "2"), BC(den[6], "2"))),                      // the tie pair, by another depositor
-		fix(Put(C, K0, BC(den[1], "2.000001"))),                                // more than held
-		fix(Put(D, K0, BC(den[1], "1"))),                                       // holds nothing
-		fix(Put(B, KM, BC(den[1], "10"))),                                      // whole balance
-		fix(Put(B, K0, BC(den[2], "1e-6"))),                                    // scientific notation, smallest unit
+		fix(Put(C, K0, BC(den[1], "2"), BC(den[6], "2"))),
+		// several batches of one class in one message: an admissible one first, then one that is too old
+		fix(Put(B, KM, BC(den[1], "1"), BC(den[2], "1"))),
+		fix(Put(B, KY, BC(den[0], "1"), BC(den[3], "1"))),
+		fix(Put(B, KM, BC(den[1], "0.5"), BC(den[6], "0.5"))), // both admissible (the tie pair)                      // the tie pair, by another depositor
+		fix(Put(C, K0, BC(den[1], "2.000001"))),               // more than held
+		fix(Put(D, K0, BC(den[1], "1"))),                      // holds nothing
+		fix(Put(B, KM, BC(den[1], "10"))),                     // whole balance
+		fix(Put(B, K0, BC(den[2], "1e-6"))),                   // scientific notation, smallest unit
 		fix(BankSend("BankSend(B->D,1500000 KNONE)", B, D, coin(K0, 1500000))),
 		TakeAll(D, K0, false),
 		fix(dateCrit("min=2019-12-31T23:59:59.999999999", KM, G, &baskettypes.DateCriteria{MinStartDate: gts(c11Starts[2])})),
